@@ -116,24 +116,38 @@ def run_case(case: dict) -> dict:
                     res["r"] = "NmtError"
                 except Exception as exc:  # noqa
                     res["r"] = f"other:{type(exc).__name__}"
+            import canopen.nmt as nmt_mod
+            import types
+
+            class _Clock:       # real time plus an offset the harness can advance (a frame "arrives late")
+                now = 0.0
+
+                def time(self):
+                    return time.time() + self.now
+                monotonic = time
+            vclock = nmt_mod.time = _Clock()
+            late_from = op.get("late_from")         # index of the first frame that arrives after the deadline
             th = threading.Thread(target=waiter, daemon=True)
             th.start()
-            fed = []
-            for b in op["feed"]:
+            fed, late = [], []
+            for k, b in enumerate(op["feed"]):
                 # feed only once the waiter is parked on the condition variable
                 t0 = time.time()
                 while not master.state_update._waiters and th.is_alive() and time.time() - t0 < 5:
                     time.sleep(0.0005)
                 if not th.is_alive():
                     break
+                if late_from is not None and k == late_from:
+                    vclock.now += op["timeout"] + 1.0
                 net1.notify(0x700 + nid, bytearray([b]), 2.0)
                 fed.append(b)
+                late.append(1 if late_from is not None and k >= late_from else 0)
                 # let the waiter wake up and (for boot-up waits) park again
                 t0 = time.time()
                 while master.state_update._waiters and th.is_alive() and time.time() - t0 < 0.05:
                     time.sleep(0.0005)
             th.join(10)
-            log({"e": "wait", "kind": op["kind"], "fed": fed, "result": res.get("r", "hang")})
+            log({"e": "wait", "kind": op["kind"], "fed": fed, "late": late, "result": res.get("r", "hang")})
     for i, e in enumerate(ev):
         e["n"] = i + 1
     return {"ev": ev, "nid": nid}
